@@ -1609,15 +1609,16 @@ theorem icmp6Parse_spec (src dst : Bytes) (next : K → Bytes → P Frame) (raw 
 
 /-! ### GRE -/
 
-theorem greField_spec (raw : Bytes) (o n : Nat) : OkOrKnown fx (greField raw o n) := by
+/-- the optional fields behind the first four bytes: a value, or exactly the raise of finding K10 -/
+theorem greField_spec (raw : Bytes) (o n : Nat) : (∃ v, greField raw o n = .ok v) ∨ greField raw o n = .error (.known .k10) := by
   unfold greField
   split
-  · exact .inr ⟨_, rfl⟩
+  · exact .inr rfl
   · exact .inl ⟨_, rfl⟩
 
 theorem greRouting_spec (raw : Bytes) : ∀ (fuel o : Nat) (acc : List (Nat × Nat × Nat × Bytes)), 1 ≤ fuel →
     raw.length + 4 ≤ o + 4 * fuel →
-    (∃ r, greRouting raw fuel o acc = .ok r ∧ o ≤ r.1) ∨ (∃ s, greRouting raw fuel o acc = .error (.known s)) := by
+    (∃ r, greRouting raw fuel o acc = .ok r ∧ o ≤ r.1) ∨ greRouting raw fuel o acc = .error (.known .k10) := by
   intro fuel
   induction fuel with
   | zero => intro _ _ h; omega
@@ -1625,7 +1626,7 @@ theorem greRouting_spec (raw : Bytes) : ∀ (fuel o : Nat) (acc : List (Nat × N
     intro o acc _ hinv
     unfold greRouting
     by_cases c : (sl raw o (o + 4)).length ≠ 4
-    · rw [if_pos c]; exact .inr ⟨_, rfl⟩
+    · rw [if_pos c]; exact .inr rfl
     rw [if_neg c]
     dsimp only
     have hle : o + 4 ≤ raw.length := by
@@ -1634,40 +1635,63 @@ theorem greRouting_spec (raw : Bytes) : ∀ (fuel o : Nat) (acc : List (Nat × N
       omega
     split
     · exact .inl ⟨_, rfl, by simp⟩
-    · rcases ih (o + 4 + beDec (sl raw (o + 3) (o + 4))) _ (by omega) (by omega) with ⟨r, hr, hm⟩ | ⟨s, hs, hf⟩
+    · rcases ih (o + 4 + beDec (sl raw (o + 3) (o + 4))) _ (by omega) (by omega) with ⟨r, hr, hm⟩ | hs
       · exact .inl ⟨r, hr, by omega⟩
-      · exact .inr ⟨s, hs, hf⟩
+      · exact .inr hs
 
 theorem greOpt_spec (raw : Bytes) (p : Bool) (o : Nat) :
-    (∃ r, greOpt raw p o = .ok r ∧ o ≤ r.1) ∨ (∃ s, greOpt raw p o = .error (.known s)) := by
+    (∃ r, greOpt raw p o = .ok r ∧ o ≤ r.1) ∨ greOpt raw p o = .error (.known .k10) := by
   unfold greOpt
   split
-  · rcases greField_spec raw o 4 with ⟨v, hv⟩ | ⟨s, hs, hf⟩
+  · rcases greField_spec raw o 4 with ⟨v, hv⟩ | hs
     · simp only [hv]; exact .inl ⟨_, rfl, by simp⟩
-    · simp only [hs]; exact .inr ⟨s, rfl, hf⟩
+    · exact .inr (by simp only [hs])
   · exact .inl ⟨_, rfl, by simp⟩
 
 theorem greCsum_spec (raw : Bytes) (p : Bool) :
-    (∃ r, greCsum raw p = .ok r ∧ 4 ≤ r.1) ∨ (∃ s, greCsum raw p = .error (.known s)) := by
+    (∃ r, greCsum raw p = .ok r ∧ 4 ≤ r.1) ∨ greCsum raw p = .error (.known .k10) := by
   unfold greCsum
   split
-  · rcases greField_spec raw 4 2 with ⟨v, hv⟩ | ⟨s, hs, hf⟩
+  · rcases greField_spec raw 4 2 with ⟨v, hv⟩ | hs
     · simp only [hv]
-      rcases greField_spec raw 6 2 with ⟨w, hw⟩ | ⟨s, hs, hf⟩
+      rcases greField_spec raw 6 2 with ⟨w, hw⟩ | hs
       · simp only [hw]; exact .inl ⟨_, rfl, by simp⟩
-      · simp only [hs]; exact .inr ⟨s, rfl, hf⟩
-    · simp only [hs]; exact .inr ⟨s, rfl, hf⟩
+      · exact .inr (by simp only [hs])
+    · exact .inr (by simp only [hs])
   · exact .inl ⟨_, rfl, by simp⟩
 
 theorem greRoute_spec (raw : Bytes) (p : Bool) (o : Nat) (h1 : 1 ≤ raw.length) (ho : 4 ≤ o) :
-    (∃ r, greRoute raw p o = .ok r ∧ o ≤ r.1) ∨ (∃ s, greRoute raw p o = .error (.known s)) := by
+    (∃ r, greRoute raw p o = .ok r ∧ o ≤ r.1) ∨ greRoute raw p o = .error (.known .k10) := by
   unfold greRoute
   split
-  · rcases greRouting_spec raw raw.length o [] h1 (by omega) with ⟨r, hr, hm⟩ | ⟨s, hs, hf⟩
+  · rcases greRouting_spec raw raw.length o [] h1 (by omega) with ⟨r, hr, hm⟩ | hs
     · obtain ⟨o', rs⟩ := r
       simp only [hr]; exact .inl ⟨_, rfl, hm⟩
-    · simp only [hs]; exact .inr ⟨s, rfl, hf⟩
+    · exact .inr (by simp only [hs])
   · exact .inl ⟨_, rfl, by simp⟩
+
+/-- the whole header: the payload starts at an offset ≥ 4, or exactly finding K10 raises -/
+theorem greHdr_spec (raw : Bytes) (flags type : Nat) (h4 : 4 ≤ raw.length) :
+    (∃ h o, greHdr raw flags type = .ok (h, o) ∧ 4 ≤ o) ∨ greHdr raw flags type = .error (.known .k10) := by
+  unfold greHdr
+  dsimp only
+  rcases greCsum_spec raw (decide (flags / 32768 % 2 = 1) || decide (flags / 16384 % 2 = 1)) with ⟨r1, hr1, m1⟩ | hs
+  · obtain ⟨o1, csum, ro⟩ := r1
+    simp only [hr1]
+    rcases greOpt_spec raw (decide (flags / 8192 % 2 = 1)) o1 with ⟨r2, hr2, m2⟩ | hs
+    · obtain ⟨o2, key⟩ := r2
+      simp only [hr2]
+      rcases greOpt_spec raw (decide (flags / 4096 % 2 = 1)) o2 with ⟨r3, hr3, m3⟩ | hs
+      · obtain ⟨o3, seq⟩ := r3
+        simp only [hr3]
+        rcases greRoute_spec raw (decide (flags / 16384 % 2 = 1)) o3 (by omega) (by simp at m1 m2 m3; omega) with ⟨r4, hr4, m4⟩ | hs
+        · obtain ⟨o, routing⟩ := r4
+          simp only [hr4]
+          exact .inl ⟨_, _, rfl, by simp at m1 m2 m3 m4; omega⟩
+        · exact .inr (by simp only [hs])
+      · exact .inr (by simp only [hs])
+    · exact .inr (by simp only [hs])
+  · exact .inr (by simp only [hs])
 
 theorem greTail_spec (next : K → Bytes → P Frame) (raw : Bytes) (h : Gre) (o : Nat) (hn : NextSpec fx next raw.length) (ho : 4 ≤ o)
     (h4 : 4 ≤ raw.length) : Out fx SpecX raw (greTail next raw h o) := by
@@ -1688,34 +1712,27 @@ theorem greTail_spec (next : K → Bytes → P Frame) (raw : Bytes) (h : Gre) (o
   exact .inl ⟨_, rfl, rfl, ext_specX _ _ _ trivial (drop_tiles raw o)⟩
 
 theorem greParse_spec (next : K → Bytes → P Frame) (raw : Bytes) (hn : NextSpec fx next raw.length) :
-    Out fx SpecX raw (greParse next raw) := by
+    Out fx SpecX raw (greParse fx next raw) := by
   unfold greParse
   split
   · exact .inl ⟨_, rfl, rfl, specX_leaf _ rfl⟩
   · rename_i hlen
     obtain ⟨flags, type, hu, _⟩ := nums2_shape [.uint 2, .uint 2] 2 2 rfl (raw.take 4) (take_len raw 4 (by omega))
     simp only [hu]
-    rcases greCsum_spec raw (decide (flags / 32768 % 2 = 1) || decide (flags / 16384 % 2 = 1)) with ⟨r1, hr1, m1⟩ | ⟨s, hs, hf⟩
-    · obtain ⟨o1, csum, ro⟩ := r1
-      simp only [hr1]
-      rcases greOpt_spec raw (decide (flags / 8192 % 2 = 1)) o1 with ⟨r2, hr2, m2⟩ | ⟨s, hs, hf⟩
-      · obtain ⟨o2, key⟩ := r2
-        simp only [hr2]
-        rcases greOpt_spec raw (decide (flags / 4096 % 2 = 1)) o2 with ⟨r3, hr3, m3⟩ | ⟨s, hs, hf⟩
-        · obtain ⟨o3, seq⟩ := r3
-          simp only [hr3]
-          rcases greRoute_spec raw (decide (flags / 16384 % 2 = 1)) o3 (by omega) (by simp at m1 m2 m3; omega) with ⟨r4, hr4, m4⟩ | ⟨s, hs, hf⟩
-          · obtain ⟨o, routing⟩ := r4
-            simp only [hr4]
-            exact greTail_spec next raw _ o hn (by simp at m1 m2 m3 m4; omega) (by omega)
-          · simp only [hs]; exact .inr ⟨s, rfl, hf⟩
-        · simp only [hs]; exact .inr ⟨s, rfl, hf⟩
-      · simp only [hs]; exact .inr ⟨s, rfl, hf⟩
-    · simp only [hs]; exact .inr ⟨s, rfl, hf⟩
+    rcases greHdr_spec raw flags type (by omega) with ⟨h, o, hr, ho⟩ | hs
+    · simp only [hr]
+      exact greTail_spec next raw h o hn ho (by omega)
+    · simp only [hs]
+      -- the repaired parser logs and returns: the object keeps its bytes, unparsed
+      rcases raiseOr_cases fx .k10 (pure (.unparsed "gre" raw) : P Frame) with hr | ⟨hf, hr⟩ <;> rw [hr]
+      · exact .inl ⟨_, rfl, rfl, specX_leaf _ rfl⟩
+      · exact .inr ⟨_, rfl, hf⟩
 
 /-! ### IGMP -/
 
-theorem igmpSrcs_spec (b : Bytes) : ∀ (n o : Nat), OkOrKnown fx (igmpSrcs b n o) := by
+/-- the source list: a list, or (without the repair) exactly finding K14 -/
+theorem igmpSrcs_spec (b : Bytes) : ∀ (n o : Nat),
+    (∃ v, igmpSrcs fx b n o = .ok v) ∨ (fx.fixed .k14 = false ∧ igmpSrcs fx b n o = .error (.known .k14)) := by
   intro n
   induction n with
   | zero => intro o; exact .inl ⟨_, rfl⟩
@@ -1723,31 +1740,38 @@ theorem igmpSrcs_spec (b : Bytes) : ∀ (n o : Nat), OkOrKnown fx (igmpSrcs b n 
     intro o
     unfold igmpSrcs
     split
-    · exact .inr ⟨_, rfl⟩
-    · rcases ih (o + 4) with ⟨v, hv⟩ | ⟨s, hs, hf⟩
+    · rcases raiseOr_cases fx .k14 (pure [] : P (List Nat)) with hr | ⟨hf, hr⟩ <;> rw [hr]
+      · exact .inl ⟨_, rfl⟩
+      · exact .inr ⟨hf, rfl⟩
+    · rcases ih (o + 4) with ⟨v, hv⟩ | ⟨hf, hs⟩
       · simp only [hv]; exact .inl ⟨_, rfl⟩
-      · simp only [hs]; exact .inr ⟨s, rfl, hf⟩
+      · exact .inr ⟨hf, by simp only [hs]⟩
 
-theorem groupRec_spec (b : Bytes) : OkOrKnown fx (groupRec b) := by
+/-- what the record walker can do: return, raise K13 (caught by `igmpParse` when repaired), or raise the unrepaired K14 -/
+def RecOut {α : Type} (fx : Fix) (r : P α) : Prop :=
+  (∃ v, r = .ok v) ∨ r = .error (.known .k13) ∨ (fx.fixed .k14 = false ∧ r = .error (.known .k14))
+
+theorem groupRec_spec (b : Bytes) : RecOut fx (groupRec fx b) := by
   unfold groupRec
   split
-  · exact .inr ⟨_, rfl⟩
+  · exact .inr (.inl rfl)
   · dsimp only
-    rcases igmpSrcs_spec b (beDec (sl b 2 4)) 8 with ⟨v, hv⟩ | ⟨s, hs, hf⟩
+    rcases igmpSrcs_spec (fx := fx) b (beDec (sl b 2 4)) 8 with ⟨v, hv⟩ | ⟨hf, hs⟩
     · simp only [hv]; exact .inl ⟨_, rfl⟩
-    · simp only [hs]; exact .inr ⟨s, rfl, hf⟩
+    · exact .inr (.inr ⟨hf, by simp only [hs]⟩)
 
-theorem groupRecs_spec : ∀ (n : Nat) (b : Bytes) (acc : List GroupRec), OkOrKnown fx (groupRecs n b acc) := by
+theorem groupRecs_spec : ∀ (n : Nat) (b : Bytes) (acc : List GroupRec), RecOut fx (groupRecs fx n b acc) := by
   intro n
   induction n with
   | zero => intro b acc; exact .inl ⟨_, rfl⟩
   | succ n ih =>
     intro b acc
     unfold groupRecs
-    rcases groupRec_spec b with ⟨v, hv⟩ | ⟨s, hs, hf⟩
+    rcases groupRec_spec (fx := fx) b with ⟨v, hv⟩ | hs | ⟨hf, hs⟩
     · obtain ⟨off, g⟩ := v
       simp only [hv]; exact ih _ _
-    · simp only [hs]; exact .inr ⟨s, rfl, hf⟩
+    · exact .inr (.inl (by simp only [hs]))
+    · exact .inr (.inr ⟨hf, by simp only [hs]⟩)
 
 theorem igmp3_shape (b : Bytes) (h : b.length = 8) :
     ∃ a1 a2 a3 a4 a5, unpackE [.uint 1, .uint 1, .uint 2, .uint 2, .uint 2] b = .ok [.num a1, .num a2, .num a3, .num a4, .num a5] := by
@@ -1763,7 +1787,7 @@ theorem igmp2_shape (b : Bytes) (h : b.length = 8) :
   obtain ⟨a1, _, rfl, _, a2, _, rfl, _, a3, _, rfl, _, a4, _, rfl, _, rfl⟩ := hf
   exact ⟨a1, a2, a3, a4, hu⟩
 
-theorem igmpParse_spec (raw : Bytes) : Out fx SpecX raw (igmpParse raw) := by
+theorem igmpParse_spec (raw : Bytes) : Out fx SpecX raw (igmpParse fx raw) := by
   unfold igmpParse
   split
   · exact .inl ⟨_, rfl, rfl, specX_leaf _ rfl⟩
@@ -1773,13 +1797,18 @@ theorem igmpParse_spec (raw : Bytes) : Out fx SpecX raw (igmpParse raw) := by
     split
     · obtain ⟨a1, a2, a3, a4, a5, hu⟩ := igmp3_shape (raw.take 8) (take_len raw 8 (by omega))
       simp only [hu]
-      rcases groupRecs_spec a5 (raw.drop 8) [] with ⟨v, hv⟩ | ⟨s, hs, hf⟩
+      rcases groupRecs_spec (fx := fx) a5 (raw.drop 8) [] with ⟨v, hv⟩ | hs | ⟨hf, hs⟩
       · obtain ⟨gs, extra⟩ := v
         simp only [hv]
         split
         · exact .inl ⟨_, rfl, rfl, specX_leaf _ rfl⟩
         · exact .inl ⟨_, rfl, rfl, ext_specX _ _ _ trivial (nil_tiles raw)⟩
-      · simp only [hs]; exact .inr ⟨s, rfl, hf⟩
+      · simp only [hs]
+        -- the repaired parser returns before the record it cannot read: the object keeps its bytes, unparsed
+        rcases raiseOr_cases fx .k13 (pure (.unparsed "igmp" raw) : P Frame) with hr | ⟨hf, hr⟩ <;> rw [hr]
+        · exact .inl ⟨_, rfl, rfl, specX_leaf _ rfl⟩
+        · exact .inr ⟨_, rfl, hf⟩
+      · simp only [hs]; exact .inr ⟨_, rfl, hf⟩
     · split
       · obtain ⟨a1, a2, a3, a4, hu⟩ := igmp2_shape (raw.take 8) (take_len raw 8 (by omega))
         simp only [hu]
@@ -1826,7 +1855,7 @@ theorem dhcp_shape (b : Bytes) (h : b.length = 28) :
     a8, _, rfl, _, a9, _, rfl, _, a10, _, rfl, _, a11, _, rfl, _, rfl⟩ := hf
   exact ⟨a1, a2, a3, a4, a5, a6, a7, a8, a9, a10, a11, hu⟩
 
-theorem dhcpParse_spec (raw : Bytes) : Out fx SpecX raw (dhcpParse raw) := by
+theorem dhcpParse_spec (raw : Bytes) : Out fx SpecX raw (dhcpParse fx raw) := by
   unfold dhcpParse
   split
   · exact .inl ⟨_, rfl, rfl, specX_leaf _ rfl⟩
